@@ -191,46 +191,17 @@ def run(ctx):
                 "state of Temporal.tla), each realised as an events file (markers of a time point in one row, in "
                 "equal-onset rows, or Delay-shifted from an earlier row; unique letter-case spelling per marker); "
                 "distinct = distinct history; non-trivial = history contains an Offset/Inset or a same-time-point reuse")
-    dcfg = "MC_Temporal.cfg"
-    dmade = None
-    if quick:
-        with open(os.path.join(tlc.SPECS, dcfg)) as f:
-            txt = f.read().replace("L = 5", "L = 4")
-        dmade = os.path.join(tlc.SPECS, "MC_Temporal_q.cfg")
-        with open(dmade, "w") as f:
-            f.write(txt)
-        dcfg = "MC_Temporal_q.cfg"
-    try:
-        ctx.tlc("MC_Temporal", dcfg, workers=16, coverage=not quick,
-                label="design: algorithm == declarative restatement, all histories <= %d" % (4 if quick else 5), timeout=900)
-    finally:
-        if dmade:
-            os.remove(dmade)
-    gen_cfg = "MC_Temporal_gen.cfg"
-    if not quick:
-        with open(os.path.join(tlc.SPECS, "MC_Temporal_gen.cfg")) as f:
-            txt = f.read().replace("L = 3", "L = 4")
-        gen_cfg = "MC_Temporal_gen4.cfg"
-        with open(os.path.join(tlc.SPECS, gen_cfg), "w") as f:
-            f.write(txt)
-    try:
-        r = ctx.tlc("MC_Temporal", gen_cfg, workers=1, label="history generation", timeout=1200)
-    finally:
-        if not quick:
-            os.remove(os.path.join(tlc.SPECS, gen_cfg))
+    dcfg = ctx.cfg("MC_Temporal.cfg", ("L = 5", "L = 4")) if quick else "MC_Temporal.cfg"
+    ctx.tlc("MC_Temporal", dcfg, workers=16, coverage=not quick,
+            label="design: algorithm == declarative restatement, all histories <= %d" % (4 if quick else 5), timeout=900)
+    gen_cfg = "MC_Temporal_gen.cfg" if quick else ctx.cfg("MC_Temporal_gen.cfg", ("L = 3", "L = 4"))
+    r = ctx.tlc("MC_Temporal", gen_cfg, workers=1, label="history generation", timeout=1200)
     hists = [j for j in r.json_lines if j["hist"]]
     ctx.exhaustive = True
     # deeper histories by TLC simulation (thorough)
     if not quick:
-        with open(os.path.join(tlc.SPECS, "MC_Temporal_gen.cfg")) as f:
-            txt = f.read().replace("L = 3", "L = 7")
-        with open(os.path.join(tlc.SPECS, "MC_Temporal_gen7.cfg"), "w") as f:
-            f.write(txt)
-        try:
-            r2 = ctx.tlc("MC_Temporal", "MC_Temporal_gen7.cfg", workers=1, mode="simulate", simulate="num=1500", depth=8,
-                         seed=ctx.seed + 5, label="deep histories (simulate, L=7)", timeout=600)
-        finally:
-            os.remove(os.path.join(tlc.SPECS, "MC_Temporal_gen7.cfg"))
+        r2 = ctx.tlc("MC_Temporal", ctx.cfg("MC_Temporal_gen.cfg", ("L = 3", "L = 7")), workers=1, mode="simulate",
+                     simulate="num=1500", depth=8, seed=ctx.seed + 5, label="deep histories (simulate, L=7)", timeout=600)
         seen = set()
         for j in r2.json_lines:
             if len(j["hist"]) >= 5:
